@@ -358,6 +358,11 @@ func c04API(c *Ctx) {
 	fx, err := NewFixture([]*MethodSpec{
 		{Name: "Get", In: "Req", Out: "Reply", Unary: h, Rule: &annotations.HttpRule{Pattern: &annotations.HttpRule_Get{Get: "/c04/get"}, AdditionalBindings: []*annotations.HttpRule{postRule("/c04/post", "*")}}},
 		{Name: "Nested", In: "Req", Out: "Reply", Unary: h, Rule: respBody},
+		{Name: "NestedDeep", In: "Req", Out: "Reply", Unary: h, Rule: func() *annotations.HttpRule {
+			r := getRule("/c04/nested/deep") // a DOTTED selector: the field of a field
+			r.ResponseBody = "nested.child"
+			return r
+		}()},
 		{Name: "RespHttpBody", In: "Req", Out: "Reply", Unary: h, Rule: respBody2},
 		{Name: "Raw", In: "Req", Out: "google.api.HttpBody", Unary: h, Rule: getRule("/c04/raw")},
 		// registered AFTER the service above: every later registration works on a copy of the routing state
@@ -381,6 +386,11 @@ func c04API(c *Ctx) {
 			n := fx.NewMsg("Nested")
 			n.Set(n.Descriptor().Fields().ByName("s"), protoreflect.ValueOfString("nested-"+strconv.Itoa(c.Rng.Intn(100))))
 			n.Set(n.Descriptor().Fields().ByName("n"), protoreflect.ValueOfInt32(int32(c.Rng.Intn(100))))
+			if c.Rng.Intn(2) == 0 {
+				ch := fx.NewMsg("Nested")
+				ch.Set(ch.Descriptor().Fields().ByName("s"), protoreflect.ValueOfString("child-"+strconv.Itoa(c.Rng.Intn(100))))
+				n.Set(n.Descriptor().Fields().ByName("child"), protoreflect.ValueOfMessage(ch))
+			}
 			m.Set(fs.ByName("nested"), protoreflect.ValueOfMessage(n))
 		}
 		if c.Rng.Intn(2) == 0 {
@@ -554,6 +564,25 @@ func c04API(c *Ctx) {
 				ct := rec.Header().Get("Content-Type")
 				if err := decode(ct, body, got); rec.Code != 200 || err != nil || !proto.Equal(got, want) {
 					c.SpecFail("api-response-body", in, fmt.Sprintf("%d ct=%q err=%v body=%s", rec.Code, ct, err, trunc(body, 80)), prototextS(want), "C04/api/response-body", "response_body does not yield exactly the selected field")
+				}
+			}
+		}
+
+		// ---- a dotted response_body selector yields the field of the field
+		if fail == nil {
+			rep := genReply()
+			reply = rep
+			rec, pn := fx.Serve(mk("/c04/nested/deep", ""))
+			c.Eval("api-response-body", in+" selector=nested.child", true)
+			if pn != nil {
+				c.SpecFail("api-response-body", in, fmt.Sprint("panic: ", pn), "a response", "C04/api/panic", "response_body path panics")
+			} else if body, ok := plainBody(rec); ok {
+				got := fx.NewMsg("Nested")
+				nested := rep.Get(rep.Descriptor().Fields().ByName("nested")).Message()
+				want := nested.Get(nested.Descriptor().Fields().ByName("child")).Message().Interface()
+				ct := rec.Header().Get("Content-Type")
+				if err := decode(ct, body, got); rec.Code != 200 || err != nil || !proto.Equal(got, want) {
+					c.SpecFail("api-response-body", in+" selector=nested.child", fmt.Sprintf("%d ct=%q err=%v body=%s", rec.Code, ct, err, trunc(body, 80)), prototextS(want), "C04/api/response-body-dotted", "a dotted response_body selector does not yield exactly the selected field")
 				}
 			}
 		}
